@@ -2,6 +2,7 @@ package quic
 
 import (
 	"crypto/rand"
+	"fmt"
 
 	"github.com/refraction-networking/uquic/internal/protocol"
 )
@@ -145,6 +146,59 @@ func (ps *InitialPacketSpec) initialPN() protocol.PacketNumber {
 		return 0
 	}
 	return protocol.PacketNumber(ps.InitPacketNumber)
+}
+
+// validate reports a spec whose Initial flight cannot be sent as described, or that no
+// conformant server would process, before anything is put on the wire. udpDatagramMinSize
+// is QUICSpec.UDPDatagramMinSize; maxPacketSize is the connection's maximum packet size
+// (Config.InitialPacketSize). [UQUIC]
+//
+// Without these checks the values were applied as they are and the dial merely timed out:
+// a server drops a client Initial whose destination connection ID is shorter than 8 bytes
+// (RFC 9000, Section 7.2) or that arrives in a datagram below 1200 bytes (Section 14.1),
+// and no receiver can recover a first packet number that does not fit the bytes it is
+// encoded in (Section 17.1, Appendix A.3).
+func (ps *InitialPacketSpec) validate(udpDatagramMinSize, maxPacketSize int) error {
+	if ps.SrcConnIDLength < 0 || ps.SrcConnIDLength > protocol.MaxConnIDLen {
+		return fmt.Errorf("uquic: invalid QUICSpec: SrcConnIDLength %d is not in [0, %d]", ps.SrcConnIDLength, protocol.MaxConnIDLen)
+	}
+	if l := ps.DestConnIDLength; l != 0 && (l < protocol.MinConnectionIDLenInitial || l > protocol.MaxConnIDLen) {
+		return fmt.Errorf("uquic: invalid QUICSpec: DestConnIDLength %d is not in [%d, %d] (0 lets the library choose)", l, protocol.MinConnectionIDLenInitial, protocol.MaxConnIDLen)
+	}
+	const maxPN = uint64(1)<<62 - 1
+	if ps.InitPacketNumber > maxPN {
+		return fmt.Errorf("uquic: invalid QUICSpec: InitPacketNumber %d exceeds the largest packet number 2^62-1", ps.InitPacketNumber)
+	}
+	for i, l := range ps.InitPacketNumberLengths {
+		if l < protocol.PacketNumberLen1 || l > protocol.PacketNumberLen4 {
+			return fmt.Errorf("uquic: invalid QUICSpec: InitPacketNumberLengths[%d] = %d is not in [1, 4]", i, l)
+		}
+	}
+	if ps.InitPacketNumberLength > protocol.PacketNumberLen4 {
+		return fmt.Errorf("uquic: invalid QUICSpec: InitPacketNumberLength %d is not in [0, 4]", ps.InitPacketNumberLength)
+	}
+	// The first packet's number is decoded against nothing: it has to fit its encoding.
+	firstLen := protocol.PacketNumberLengthForHeader(ps.initialPN(), protocol.InvalidPacketNumber)
+	if len(ps.InitPacketNumberLengths) > 0 {
+		firstLen = ps.InitPacketNumberLengths[0]
+	} else if ps.InitPacketNumberLength != 0 {
+		firstLen = ps.InitPacketNumberLength
+	}
+	if ps.InitPacketNumber >= uint64(1)<<(8*uint(firstLen)) {
+		return fmt.Errorf("uquic: invalid QUICSpec: InitPacketNumber %d does not fit the %d byte(s) the first Initial packet encodes it in, no receiver could open that packet", ps.InitPacketNumber, firstLen)
+	}
+	if udpDatagramMinSize < 0 || (udpDatagramMinSize > 0 && udpDatagramMinSize < protocol.MinInitialPacketSize) || udpDatagramMinSize > protocol.MaxPacketBufferSize {
+		return fmt.Errorf("uquic: invalid QUICSpec: UDPDatagramMinSize %d is not in [%d, %d] (0 means %d)", udpDatagramMinSize, protocol.MinInitialPacketSize, protocol.MaxPacketBufferSize, DefaultUDPDatagramMinSize)
+	}
+	for i, plan := range ps.InitialPackets {
+		if plan.CryptoLength < 0 {
+			return fmt.Errorf("uquic: invalid QUICSpec: InitialPackets[%d].CryptoLength %d is negative", i, plan.CryptoLength)
+		}
+		if plan.PacketSize != 0 && (plan.PacketSize < protocol.MinInitialPacketSize || plan.PacketSize > maxPacketSize) {
+			return fmt.Errorf("uquic: invalid QUICSpec: InitialPackets[%d].PacketSize %d is not in [%d, %d] (the connection's maximum packet size, Config.InitialPacketSize)", i, plan.PacketSize, protocol.MinInitialPacketSize, maxPacketSize)
+		}
+	}
+	return nil
 }
 
 // UpdateConfig installs the spec's token source into conf, resolved by getTokenStore:
